@@ -707,11 +707,12 @@ namespace ip {
 		m_recv_null_buffers = true;
 	}
 
-	// if there is an outstanding read operation, and this was the first incoming
-	// operation since we last drained, wake up the reader
+	// if there is an outstanding read operation, wake up the reader. (A read is
+	// only ever left outstanding when the incoming queue was empty; several
+	// segments may have been appended at once from the reorder buffer.)
 	void tcp::socket::maybe_wakeup_reader()
 	{
-		if (m_incoming_queue.size() != 1 || (!m_recv_handler && !m_wait_recv_handler)) return;
+		if (m_incoming_queue.empty() || (!m_recv_handler && !m_wait_recv_handler)) return;
 
 		if (m_recv_null_buffers)
 		{
